@@ -1061,7 +1061,15 @@ fn c11(ctx: &Ctx, rep: &mut Report) {
             }
             ls.apply(op, rep);
             // Stdfs as root on the in-domain subset
-            if si % 5 == 0 && in_domain_state(state) && !through_link(state, model.abs(op.paths()[0]).and_then(|x| x.ok()).as_deref()) {
+            // (links to nothing included - only links to links are left to Memfs: the operating system follows chains)
+            let no_chains = state.nodes.values().all(|n| match &n.kind {
+                NKind::Link { target, .. } => !matches!(state.nodes.get(target), Some(NNode { kind: NKind::Link { .. }, .. })) && !through_link(state, Some(target.as_str())),
+                _ => true,
+            });
+            // (chown through a followed link to nothing is an operating system error on the real backend and a silent
+            // no-op on Memfs - not defined by the statement: dangling links are judged for chmod only)
+            let domain_ok = in_domain_state(state) || (no_chains && matches!(op, Op::Chmod(..) | Op::ChmodB(..)));
+            if si % 5 == 0 && domain_ok && !through_link(state, model.abs(op.paths()[0]).and_then(|x| x.ok()).as_deref()) {
                 if let Expect::Outcomes(outs) = model.step(op) {
                     if let Some((r, pre_d, post_d)) = stdfs_step(&sroot, state, op) {
                         rep.eval();
